@@ -549,11 +549,18 @@ def endList (s : Store) (li : Nat) : Outcome (Store × Nat) := do
     pure (s, li)
   | _ => .err .data
 
+/-- a whole list the way `values::build` and the runtime's `make_list` construct it: `start_list(len)`, one
+`add_to_list` per item (the items exist already), `end_list` -/
+def buildList (s : Store) (items : List Nat) : Outcome (Store × Nat) := do
+  let (s, li) ← s.startList items.length
+  let s ← items.foldlM (fun s a => s.addToList li a) s
+  s.endList li
+
 /-- `merge_to_symbol_list(first, second)` -/
 def mergeToSymbolList (s : Store) (first second : Nat) : Outcome (Store × Nat) := do
   let a ← s.get first
   let b ← s.get second
-  let isPart : Cell → Bool := fun c => match c with | .symbol _ => true | .number _ => true | _ => false
+  let isPart : Cell → Bool := isSymPart
   match a, b with
   | .symbolList n1, .symbolList n2 => do
     let (s, i) ← s.push (.symbolList (n1 + n2))
